@@ -133,6 +133,27 @@ class AStr:
         return hash(self.tag)
 
 
+def astr_cat(a, b):
+    ta = a.tag if isinstance(a, AStr) else repr(a)
+    tb = b.tag if isinstance(b, AStr) else repr(b)
+    if isinstance(a, str) and a == "":
+        return b
+    if isinstance(b, str) and b == "":
+        return a
+    return AStr("(%s + %s)" % (ta, tb))
+
+
+def astr_fmt(fmt, parts):
+    return AStr("fmt(%r|%s)" % (fmt, "|".join(x.tag if isinstance(x, AStr) else repr(x) for x in parts)))
+
+
+class PaletteV:
+    """an unknown mapping residue -> text (the colour palette)"""
+
+    def __init__(self, name):
+        self.name = name
+
+
 class FieldListV:
     """a list-valued field of the receiver whose content is unknown (e.g. self.phosphosites)"""
 
@@ -312,7 +333,10 @@ class Evaluator:
                 if p.kind != "live":
                     new.append(p)
                     continue
-                new.extend(self.exec_stmt(s, p, fr))
+                try:
+                    new.extend(self.exec_stmt(s, p, fr))
+                except _Raised as r:
+                    new.append(Path(p.conds, "raise", r.name, p.env))
             paths = new
             if len(paths) > MAX_PATHS:
                 raise Undecided("too many paths", fr.f.loc(s))
@@ -468,6 +492,21 @@ class Evaluator:
             for t, v in zip(target.elts, val):
                 self.assign(t, v, env, fr, conds)
             return
+        if is_self_attr(target):
+            env["@self." + target.attr] = val
+            return
+        if isinstance(target, ast.Subscript) and is_self_attr(target.value):
+            key = "@self." + target.value.attr
+            base = env.get(key)
+            if base is None:
+                base = {"<content before the call>": "..."}
+            idx = self.eval(target.slice, env, fr)
+            if isinstance(base, dict) and _pykey(idx) is not None:
+                d = dict(base)
+                d[_pykey(idx)] = val
+                env[key] = d
+                return
+            raise Undecided("store into self.%s[...] not modelled" % target.value.attr, fr.f.loc(target))
         if isinstance(target, ast.Subscript) and isinstance(target.value, ast.Name):
             base = env.get(target.value.id)
             idx = self.eval(target.slice, env, fr)
@@ -912,6 +951,9 @@ class Evaluator:
         sym = {"Eq": "==", "NotEq": "!=", "Lt": "<", "LtE": "<=", "Gt": ">", "GtE": ">="}.get(name)
         if sym is None:
             raise Undecided("comparison operator %s" % name, fr.f.loc(node))
+        if isinstance(a, AStr) and isinstance(b, str) and sym in ("==", "!="):
+            c = ("opaque", "%s==%r" % (a.tag, b))
+            return c if sym == "==" else c_not(c)
         if isinstance(a, AChar) and isinstance(b, str) and sym in ("==", "!="):
             c = ("opaque", "%s==%r" % (a.tag, b))
             return c if sym == "==" else c_not(c)
@@ -1040,6 +1082,8 @@ class Evaluator:
         g = self.prog.resolve_global(fr.f.mod, node)
         if g:
             return self.global_value(g, fr, node)
+        if is_self_attr(node) and ("@self." + node.attr) in env:
+            return env["@self." + node.attr]
         base = self.eval(node.value, env, fr)
         if isinstance(base, ObjV):
             if node.attr in base.fields:
@@ -1100,6 +1144,14 @@ class Evaluator:
                 return base[a:b]
             raise Undecided("slice of %r" % (base,), fr.f.loc(node))
         idx = self.eval(sl, env, fr)
+        if isinstance(base, PaletteV):
+            if isinstance(idx, AStr):
+                return AStr("%s[%s]" % (base.name, idx.tag))
+            if isinstance(idx, str):
+                return AStr("%s[%r]" % (base.name, idx))
+            if isinstance(idx, AChar):
+                return AStr("%s[%s]" % (base.name, idx.tag))
+            raise Undecided("palette lookup by %r" % (idx,), fr.f.loc(node))
         if isinstance(base, AStr):
             i = _as_rat(idx)
             if i is not None and i.is_const():
@@ -1163,15 +1215,15 @@ class Evaluator:
             if isinstance(a, str) and isinstance(b, str):
                 return a + b
             if isinstance(a, (AStr, str)) and isinstance(b, (AStr, str)):
-                ta = a.tag if isinstance(a, AStr) else repr(a)
-                tb = b.tag if isinstance(b, AStr) else repr(b)
-                if a == "":
-                    return b
-                if b == "":
-                    return a
-                return AStr("(%s + %s)" % (ta, tb))
+                return astr_cat(a, b)
             if isinstance(a, (list, tuple)) and isinstance(b, (list, tuple)) and type(a) is type(b):
                 return a + b
+        if op == "Mod" and isinstance(a, str):
+            parts = list(b) if isinstance(b, tuple) else [b]
+            if a.count("%s") == len(parts) and a.count("%") == len(parts) and all(isinstance(x, (str, AStr)) for x in parts):
+                if all(isinstance(x, str) for x in parts):
+                    return a % tuple(parts)
+                return astr_fmt(a, parts)
         ra, rb = _as_rat(a), _as_rat(b)
         if ra is None or rb is None:
             raise Undecided("arithmetic on non-numbers: %s" % unparse(node)[:60], fr.f.loc(node))
@@ -1231,6 +1283,13 @@ class Evaluator:
             if t == "str":
                 return isinstance(v, str)
             raise Undecided("isinstance(..., %s)" % t, fr.f.loc(node))
+        if name == "dict" and len(args) <= 1 and not node.keywords:
+            if not args:
+                return {}
+            v = self.eval(args[0], env, fr)
+            if isinstance(v, dict):
+                return dict(v)
+            raise Undecided("dict(%s)" % unparse(args[0])[:40], fr.f.loc(node))
         if name in ("float", "int", "str", "abs", "len", "list", "set", "min", "max", "sum", "range",
                     "sorted", "tuple"):
             return self.builtin(name, node, env, fr)
